@@ -99,6 +99,19 @@ func (lalr *LALR1) fetchTransIndex(state, sym int) (int, error) {
 	return MaxInt, fmt.Errorf("not found")
 }
 
+// walkPath follows the transitions labelled by syms from state and
+// returns the state reached.
+func (lalr *LALR1) walkPath(state int, syms []*symbol.Symbol) (int, bool) {
+	for _, sy := range syms {
+		index, err := lalr.fetchTransIndex(state, int(sy.ID))
+		if err != nil {
+			return state, false
+		}
+		state = lalr.trans[index].to
+	}
+	return state, true
+}
+
 func (lalr *LALR1) seqenceCanEpsilon(slice []*symbol.Symbol) bool {
 	ret := true
 	for _, sy := range slice {
